@@ -8,7 +8,7 @@ from sa.emit import Alt, Elem, Opt, Rep, walk_elems
 from sa.flow import show, sig, subterms
 from sa.model import AnalysisError, norm, parent, walk_no_nested
 
-from .common import alts, class_with_code, commands, is_call, is_plain_iter, loop_iteration_paths, need, prov, raised_class, unshipped_modules
+from .common import include_rules, alts, class_with_code, commands, is_call, is_plain_iter, loop_iteration_paths, need, prov, raised_class, unshipped_modules
 from .xmlcommon import documents
 
 
@@ -332,6 +332,9 @@ def run(report, p):
             r5.check(is_plain_iter(p, n.iter), fde, n.iter, "directory entries are collected from a slice of the generations only")
             r5.check(not [x for s in n.body for x in ast.walk(s) if isinstance(x, (ast.Break, ast.Return)) and _loop_of(x) is n], fde, n, "collection of recorded directory entries stops before the last generation", construct=f"early exit in for {norm(n.target)} in {norm(n.iter)}")
 
+    # ---- rules shared with other properties (same mechanism, same rule, reported under every property it can break)
+    include_rules(report, p, 'c07', ['R7.1', 'R7.2', 'R7.3', 'R7.4'], 'verify -dh recomputes directory hashes with the same context wiring')
+    include_rules(report, p, 'c01', ['R1.1'], 'file digests feeding the directory hashes must cover the whole file')
     report.not_decided += ["that every change alters a directory hash (C07, collision resistance)", "verdicts for concrete trees"]
 
 
